@@ -41,6 +41,24 @@ def proj_c10(obs):
         return ("Ok", ("", found, it, ln_, [("", len(q[1]), q[2], len(q[3])) for q in qs]))
     return obs
 
+def proj_c01r(obs):
+    """sub_ontology copies its terms out of a HashSet, so the iteration order of a sub-ontology (and the order of the
+    blocks of the rendered text) is unspecified: terms are compared sorted by id, the texts as sorted lists of lines;
+    that each text is the documented rendering of the terms IN THE OBSERVED ORDER is judged by spec_C01r"""
+    if isinstance(obs, tuple) and obs and obs[0] == "Ok" and isinstance(obs[1], tuple):
+        _, ts, m, g = obs[1]
+        def lines(bs):
+            out, cur = [], []
+            for x in bs:
+                if x == 10:
+                    out.append(tuple(cur)); cur = []
+                else:
+                    cur.append(x)
+            out.append(tuple(cur))
+            return sorted(out)
+        return ("Ok", ("", sorted(ts, key=lambda t: t[1]), lines(m), lines(g)))
+    return obs
+
 def cmp_c17(impl, model):
     """a run in which the model met a tie (two live pairs at the minimal distance) may legitimately merge another pair: not diffed"""
     import coqterm
@@ -57,8 +75,9 @@ def proj_c06(obs):
 
 PROPS = {
     "C01": {
-        "subs": [sub("C01", "run_C01", "spec_C01", W_IMPORTS + ["Run.C01"], 400, 4000)],
-        "run_modules": ["C01"],
+        "subs": [sub("C01", "run_C01", "spec_C01", W_IMPORTS + ["Run.C01"], 400, 4000),
+                 dict(sub("C01r", "run_C01r", "spec_C01r", W_IMPORTS + ["Run.C01r"], 100, 1000), proj=proj_c01r)],
+        "run_modules": ["C01", "C01r"],
         "rule": "seeded acyclic is_a graphs (1-16 terms, thorough up to 60; multi-parent, redundant shortcut edges, several roots, "
                 "disconnected terms; ids dense/sparse/borders decorrelated from topology; shuffled insertion and link order); "
                 "non-trivial = a term with >= 2 parents and depth >= 3",
